@@ -36,6 +36,9 @@ type C17Case struct {
 	// css: font size of the box; FontSize2 > 0: a second box of the same size follows, styled by the same rule
 	FontSize  float64 `json:"font_size,omitempty"`
 	FontSize2 float64 `json:"font_size2,omitempty"`
+	// css: display of the transformed box ("" = block): the transform and its origin belong to the box that
+	// is painted, also when the element generates a wrapper around its principal box (tables)
+	Display string `json:"display,omitempty"`
 }
 
 type m64 [6]float64 // a b c d e f, column vectors: x' = a x + c y + e ; y' = b x + d y + f
@@ -245,6 +248,8 @@ func c17Gen(t *rapid.T, tier Tier) interface{} {
 		c.FontSize = rapid.SampledFrom([]float64{16, 16, 10, 30}).Draw(t, "fs")
 		if rapid.IntRange(0, 2).Draw(t, "shared") == 0 {
 			c.FontSize2 = rapid.SampledFrom([]float64{16, 8, 20, 40}).Draw(t, "fs2")
+		} else if rapid.IntRange(0, 1).Draw(t, "disp") == 0 {
+			c.Display = rapid.SampledFrom([]string{"table", "table", "flow-root", "flex", "grid"}).Draw(t, "display")
 		}
 	default:
 		c.Kind = "svg"
@@ -551,8 +556,12 @@ func c17CSS(c *C17Case) Verdict {
 		doc = fmt.Sprintf(`<!DOCTYPE html><html><head><style>@page{size:600px 600px;margin:0}html,body{margin:0;padding:0}.t{width:%gpx;height:%gpx;margin-left:%gpx;background:rgb(1,2,3);transform:%s;%s}</style></head><body><div class="t" style="margin-top:%gpx;font-size:%gpx"></div><div class="t" style="font-size:%gpx"></div></body></html>`,
 			c.W, c.H, c.X, strings.Join(parts, " "), origin, c.Y, font, c.FontSize2)
 	} else {
-		doc = fmt.Sprintf(`<!DOCTYPE html><html><head><style>@page{size:600px 600px;margin:0}html,body{margin:0;padding:0}</style></head><body><div style="margin:%gpx 0 0 %gpx;width:%gpx;height:%gpx;font-size:%gpx;background:rgb(1,2,3);transform:%s;%s"></div></body></html>`,
-			c.Y, c.X, c.W, c.H, font, strings.Join(parts, " "), origin)
+		disp := ""
+		if c.Display != "" {
+			disp = "display:" + c.Display + ";"
+		}
+		doc = fmt.Sprintf(`<!DOCTYPE html><html><head><style>@page{size:600px 600px;margin:0}html,body{margin:0;padding:0}</style></head><body><div style="%smargin:%gpx 0 0 %gpx;width:%gpx;height:%gpx;font-size:%gpx;background:rgb(1,2,3);transform:%s;%s"></div></body></html>`,
+			disp, c.Y, c.X, c.W, c.H, font, strings.Join(parts, " "), origin)
 	}
 	labels := []string{"kind:css"}
 	for _, f := range c.List {
@@ -568,6 +577,9 @@ func c17CSS(c *C17Case) Verdict {
 	}
 	if len(boxes) == 2 {
 		labels = append(labels, "shared-rule")
+	}
+	if c.Display != "" {
+		labels = append(labels, "display:"+c.Display)
 	}
 	r, err := wr.Render(doc, wr.Opts{})
 	if err != nil {
